@@ -16,7 +16,8 @@ using Scalars =
              std::size_t, int, EnumU8, EnumI32, EnumPlain>;
 using Floats = TypeList<float, double, std::tuple<int, std::string, double>,
                         std::vector<float>, std::array<double, 2>, External,
-                        std::pair<int, float>, Variant<float, bool, double>, Optional<double>, std::map<int, float>>;
+                        std::pair<int, float>, Variant<float, bool, double>, Optional<double>, std::map<int, float>,
+                        LBufC<float, 4, std::size_t>, LBufA<double, 2, std::uint8_t>>;
 using Containers = TypeList<
     std::string, std::u16string, std::u32string, std::wstring,
     std::vector<std::uint8_t>, std::vector<std::int32_t>,
